@@ -71,6 +71,8 @@ FIXED = [
  ('F1', ['C02', 'C03'], 'euclidean C kernels squared max_dist/max_step/penalty', 'fix: the euclidean-inner-distance C kernels squared'),
  ('F4/F5', ['C03', 'C09'], 'dtw_warping_paths_ndim_euclidean used the squared-variant bound and rooted only_ub', 'fix: dtw_warping_paths_ndim_euclidean pruned'),
  ('F36', ['C02', 'C10'], 'psi_1e candidate read through stale curidx', 'fix: C dtw_distance read the psi_1e candidate'),
+ ('F51', ['C18'], "non-compact LocalConcurrences reset left consumed (negated) cells negative: kbest_matches(restart=True) after a first search returned other matches", 'fix: LocalConcurrences reset did not restore'),
+ ('F52', ['C18'], "kbest_matches(buffer>0) flipped signs over overlapping windows: cells of a match became positive again and were reused (e.g. seed-10 instance in DESIGN.md)", 'fix: a positive buffer in LocalConcurrences.kbest_matches'),
  ('F49', ['C17'], "dp returned inf for an empty second sequence: needleman_wunsch('AB', '') gave -inf instead of -2", 'fix: dp returned infinity for an empty second sequence'),
  ('F50', ['C17'], "Needleman-Wunsch border charged 1 per gap whatever the gap cost of make_substitution_fn: gap=0.5, 'A' vs 'BA' gave 0 instead of 0.5", 'fix: Needleman-Wunsch border ignored the gap cost'),
  ('F3', ['C03', 'C04'], 'dtw_warping_paths_ndim compared squared cost with unsquared max_dist', 'fix: dtw_warping_paths_ndim compared the squared'),
